@@ -138,6 +138,12 @@ def random_scripts(rep, tier, seed):
     rep.cov["random_scripts"] = n
     rep.cov["random_scripts_specified"] = nspec
     rep.cov["random_trace_verdicts"] = verdicts
+    why = {}
+    for c in cases:
+        if c["out"]["k"] == "unspec":
+            w = c["out"].get("why", "?")
+            why[w] = why.get(w, 0) + 1
+    rep.cov["random_unspecified_by_place_in_spec"] = dict(sorted(why.items(), key=lambda kv: -kv[1]))
     rep.cov["traces_validated_against_impl"] += n
     rep.cov["evaluations"] += n
     rep.cov["distinct_nontrivial"] += nspec
